@@ -1,11 +1,14 @@
 #!/bin/bash
 # usage: confirm_seed.sh <mut worktree dir>   — confirms the demonstration: fails with the change, passes without
+# (the change is taken out with `git apply -R` — the stash is shared between worktrees — and put back afterwards)
 set -u
 W=$1
 cd $W || exit 2
-echo "--- with change:"; PYTHONPATH=$W /venv/bin/python _seed/demo.py > /tmp/demo_with.out 2>&1; A=$?; tail -3 /tmp/demo_with.out; echo "exit=$A"
-git stash -q -- gbasis
-echo "--- without change:"; PYTHONPATH=$W /venv/bin/python _seed/demo.py > /tmp/demo_without.out 2>&1; B=$?; tail -2 /tmp/demo_without.out; echo "exit=$B"
-git stash pop -q
+git diff -- gbasis > _seed/.current.diff
+echo "--- with change:"; PYTHONPATH=$W /venv/bin/python _seed/demo.py > _seed/.demo_with.out 2>&1; A=$?; tail -3 _seed/.demo_with.out; echo "exit=$A"
+git apply -R _seed/.current.diff || { echo NOT-CONFIRMED; exit 2; }
+echo "--- without change:"; PYTHONPATH=$W /venv/bin/python _seed/demo.py > _seed/.demo_without.out 2>&1; B=$?; tail -2 _seed/.demo_without.out; echo "exit=$B"
+git apply _seed/.current.diff
 git diff --stat -- gbasis | tail -1
+cmp -s <(git diff -- gbasis) _seed/patch.diff || echo "note: patch.diff differs from the worktree diff"
 [ $A -eq 1 ] && [ $B -eq 0 ] && echo CONFIRMED || echo NOT-CONFIRMED
